@@ -152,6 +152,8 @@ class GeneralLinearModel:
             column_index = np.arange(self.X.shape[1])
         if not hasattr(column_index, '__iter__'):
             column_index = [int(column_index)]
+        # index the rows with a list: NumPy takes a tuple as one index per axis
+        column_index = list(column_index)
         n_beta = len(column_index)
 
         # build the beta array
